@@ -61,12 +61,19 @@ type c12Cfg struct {
 	name     string
 	api      string // "elem": rag.DocumentChunker; "layout": rag.Chunker
 	maxChars int    // nominal hard maximum in bytes, used to size paragraphs
+	minChars int    // nominal minimum chunk size in bytes (0 = 100), used to size paragraphs
 	heavy    bool
 	run      func(doc *model.Document) ([]*rag.Chunk, error)
 }
 
 func c12ElemCfg(name string, max int, heavy bool, sc func() rag.SizeConfig) c12Cfg {
-	return c12Cfg{name: name, api: "elem", maxChars: max, heavy: heavy, run: func(d *model.Document) ([]*rag.Chunk, error) {
+	min := 100
+	if m := sc().Min; m.Unit == rag.SizeUnitCharacters {
+		min = m.Value
+	} else if m.Unit == rag.SizeUnitTokens {
+		min = m.Value * 4
+	}
+	return c12Cfg{name: name, api: "elem", maxChars: max, minChars: min, heavy: heavy, run: func(d *model.Document) ([]*rag.Chunk, error) {
 		return rag.ChunkDocumentWithConfig(d, rag.DefaultChunkerConfig(), sc()).Chunks, nil
 	}}
 }
@@ -74,6 +81,13 @@ func c12ElemCfg(name string, max int, heavy bool, sc func() rag.SizeConfig) c12C
 func c12Configs() []c12Cfg {
 	small := rag.DefaultChunkerConfig()
 	small.TargetChunkSize, small.MaxChunkSize, small.MinChunkSize = 300, 600, 50
+	tiny := rag.DefaultChunkerConfig()
+	tiny.TargetChunkSize, tiny.MaxChunkSize, tiny.MinChunkSize = 120, 240, 40
+	chars300 := func() rag.SizeConfig {
+		sc := rag.DefaultSizeConfig()
+		sc.Target.Value, sc.Min.Value, sc.Max.Value = 150, 40, 300
+		return sc
+	}
 	return []c12Cfg{
 		{name: "ChunkDocument", api: "elem", maxChars: 2000, run: func(d *model.Document) ([]*rag.Chunk, error) {
 			return rag.ChunkDocument(d).Chunks, nil
@@ -84,6 +98,7 @@ func c12Configs() []c12Cfg {
 		c12ElemCfg("Cohere", 2048, false, rag.CohereEmbeddingConfig),
 		c12ElemCfg("Tokens100-200", 800, false, func() rag.SizeConfig { return rag.TokenBasedSizeConfig(100, 200) }),
 		c12ElemCfg("Semantic2-3", 1500, false, func() rag.SizeConfig { return rag.SemanticSizeConfig(2, 3) }),
+		c12ElemCfg("Chars300", 300, false, chars300),
 		c12ElemCfg("OpenAI", 32000, true, rag.OpenAIEmbeddingConfig),
 		c12ElemCfg("Claude", 32000, true, rag.ClaudeContextConfig),
 		{name: "RAGOptimized", api: "elem", maxChars: 32000, heavy: true, run: func(d *model.Document) ([]*rag.Chunk, error) {
@@ -97,8 +112,15 @@ func c12Configs() []c12Cfg {
 			}
 			return r.Chunks, nil
 		}},
-		{name: "NewChunkerSmall", api: "layout", maxChars: 600, run: func(d *model.Document) ([]*rag.Chunk, error) {
+		{name: "NewChunkerSmall", api: "layout", maxChars: 600, minChars: 50, run: func(d *model.Document) ([]*rag.Chunk, error) {
 			r, err := rag.NewChunkerWithConfig(small).Chunk(d)
+			if err != nil {
+				return nil, err
+			}
+			return r.Chunks, nil
+		}},
+		{name: "NewChunkerTiny", api: "layout", maxChars: 240, minChars: 40, run: func(d *model.Document) ([]*rag.Chunk, error) {
+			r, err := rag.NewChunkerWithConfig(tiny).Chunk(d)
 			if err != nil {
 				return nil, err
 			}
@@ -126,6 +148,93 @@ func c12Words(class, max int) int {
 	}
 }
 
+// c12Bytes: the exact byte length of a paragraph of a boundary size class, chosen
+// relative to the configuration's maximum and minimum chunk size (0 = the class
+// is sized in words by c12Words).
+//
+//	5 short      shorter than min
+//	6 near-full  so long that a short paragraph no longer fits behind it in one chunk
+//	7 / 8        exactly max / max+1
+//	9 / 10       min-1 / exactly min
+//	11 / 12      two of them plus the "\n\n" separator are exactly max / max+2
+func c12Bytes(class, max, min int) int {
+	if min <= 0 {
+		min = 100
+	}
+	short := min * 6 / 10
+	if short < 16 {
+		short = 16
+	}
+	switch class {
+	case 5:
+		return short
+	case 6:
+		return max - short + 10
+	case 7:
+		return max
+	case 8:
+		return max + 1
+	case 9:
+		return min - 1
+	case 10:
+		return min
+	case 11:
+		return (max - 2) / 2
+	case 12:
+		return (max-2)/2 + 1
+	}
+	return 0
+}
+
+// c12ListItems: the largest number of list items whose text, as rag.formatList
+// writes it ("- " + token, two spaces of indentation per level 0,1,2,0,..., one
+// line per item), stays below b bytes - a list of a size class.
+func c12ListItems(b int) int {
+	n, l := 0, 0
+	for {
+		add := 2*(n%3) + 2 + 7
+		if n > 0 {
+			add++
+		}
+		if l+add > b-4 {
+			break
+		}
+		l += add
+		n++
+	}
+	if n < 1 {
+		n = 1
+	}
+	return n
+}
+
+// c12ParaLen: byte length of a paragraph of n words as c12Render writes it (7-byte
+// tokens, single spaces, a full stop after every 7th and after the last word).
+func c12ParaLen(n int) int {
+	l := 8*n - 1
+	if n > 1 {
+		l += n / 7
+		if n%7 != 0 {
+			l++
+		}
+	}
+	return l
+}
+
+// c12WordsFor: the largest number of words that fit into exactly b bytes; the
+// rest is padding on the last word.
+func c12WordsFor(b int) (n, pad int) {
+	n = 1
+	for c12ParaLen(n+1) <= b {
+		n++
+	}
+	pad = b - c12ParaLen(n)
+	if pad < 0 {
+		pad = 0
+	}
+	return n, pad
+}
+
 type c12Rendered struct {
 	doc     *model.Document
 	n       []int // units per element
@@ -135,7 +244,7 @@ type c12Rendered struct {
 	unitEl  []int          // unit -> element index (1-based); unitEl[0] unused
 }
 
-func c12Render(c *c12Case, max int, mode string) *c12Rendered {
+func c12Render(c *c12Case, max, min int, mode string) *c12Rendered {
 	r := &c12Rendered{titleEl: map[string]int{}, unitEl: []int{0}}
 	r.n = make([]int, len(c.Doc))
 	r.first = make([]int, len(c.Doc))
@@ -152,14 +261,21 @@ func c12Render(c *c12Case, max int, mode string) *c12Rendered {
 	ypos := map[int]float64{}
 	for i, e := range c.Doc {
 		p := pages[e.Pg]
-		n := 0
+		n, pad := 0, 0
 		switch e.K {
 		case "H":
 			n = 1
 		case "P":
-			n = c12Words(e.A, max)
+			if b := c12Bytes(e.A, max, min); b > 0 {
+				n, pad = c12WordsFor(b)
+			} else {
+				n = c12Words(e.A, max)
+			}
 		case "L", "T":
 			n = e.A
+			if e.K == "L" && e.A >= 100 {
+				n = c12ListItems(c12Bytes(e.A-100, max, min))
+			}
 		case "I":
 			n = e.A
 		}
@@ -189,11 +305,16 @@ func c12Render(c *c12Case, max int, mode string) *c12Rendered {
 					sb.WriteByte(' ')
 				}
 				sb.WriteString(t)
+				if j == n-1 {
+					// padding to the exact byte length of a boundary class; it is glued
+					// to the last token, so it is never a word of its own
+					sb.WriteString(strings.Repeat("x", pad))
+				}
 				if n > 1 && (j%7 == 6 || j == n-1) {
 					sb.WriteByte('.')
 				}
 			}
-			if e.A <= 2 && i+1 < len(c.Doc) && c.Doc[i+1].K == "L" && i%3 != 2 {
+			if (e.A <= 2 || e.A == 5) && i+1 < len(c.Doc) && c.Doc[i+1].K == "L" && i%3 != 2 {
 				sb.WriteByte(':') // a list introduction
 			}
 			p.Elements = append(p.Elements, &model.Paragraph{Text: sb.String(), BBox: bbox, FontSize: 11})
@@ -503,7 +624,7 @@ func c12Feature(c *c12Case, r *c12Rendered, f *c12Fail, cfg c12Cfg, mode string)
 			pc := *c
 			pc.Doc = c.Doc[:f.el]
 			pc.Els = c.Els[:f.el]
-			pr := c12Render(&pc, cfg.maxChars, mode)
+			pr := c12Render(&pc, cfg.maxChars, cfg.minChars, mode)
 			if chunks, err := c12Run(cfg, pr.doc); err == nil {
 				po := c12Project(chunks, pr, cfg.api)
 				for _, o := range po {
@@ -556,8 +677,8 @@ func c12Nontrivial(c *c12Case) bool {
 		if e.K == "H" {
 			levels[e.A] = true
 		}
-		if e.K == "P" && e.A >= 3 {
-			return true
+		if e.K == "P" && e.A >= 3 && e.A != 5 && e.A != 9 && e.A != 10 {
+			return true // a paragraph at or above the maximum, or one that nearly fills a chunk
 		}
 	}
 	return len(levels) >= 2
@@ -589,7 +710,7 @@ func c12ReplayCase(i int, raw []byte) Result {
 			if mode == "addpage" && c.OnlyMode == "" && ci%3 != 0 && len(c.Pages) > 0 && c.Pages[0] == 1 {
 				continue // AddPage numbering only differs when the pages are not 1..n
 			}
-			r := c12Render(&c, cfg.maxChars, mode)
+			r := c12Render(&c, cfg.maxChars, cfg.minChars, mode)
 			chunks, err := c12Run(cfg, r.doc)
 			res.Evals++
 			replay := func(obs interface{}) interface{} {
@@ -667,10 +788,15 @@ func c12Record(in, out string) error {
 					}
 				case x < 7:
 					e.K, e.A = "P", 1+rnd.Intn(4)
+					if rnd.Intn(3) == 0 {
+						e.A = 5 + rnd.Intn(8) // sizes at the configured min/max boundaries
+					}
 				case x < 8:
 					e.K, e.A = "L", 1+rnd.Intn(6)
 					if rnd.Intn(6) == 0 {
 						e.A = 40 + rnd.Intn(60) // larger than the small maximum chunk size
+					} else if rnd.Intn(6) == 0 {
+						e.A = 106 // nearly fills a chunk
 					}
 				case x < 9:
 					e.K, e.A = "T", 2*(1+rnd.Intn(3))
@@ -693,7 +819,7 @@ func c12Record(in, out string) error {
 			}
 			c.Lnorm = lnorm
 			// three configurations per document (+ both layout chunkers when possible)
-			pick := map[int]bool{0: true, 1 + rnd.Intn(6): true, 7 + rnd.Intn(3): rnd.Intn(4) == 0}
+			pick := map[int]bool{0: true, 1 + rnd.Intn(7): true, 8 + rnd.Intn(3): rnd.Intn(4) == 0}
 			for ci, cfg := range cfgs {
 				if cfg.api == "layout" && !lnorm {
 					continue
@@ -705,7 +831,7 @@ func c12Record(in, out string) error {
 				if rnd.Intn(3) == 0 {
 					mode = "addpage"
 				}
-				r := c12Render(&c, cfg.maxChars, mode)
+				r := c12Render(&c, cfg.maxChars, cfg.minChars, mode)
 				chunks, err := c12Run(cfg, r.doc)
 				evals++
 				if err != nil {
@@ -732,7 +858,7 @@ func c12TraceCase(i int, raw []byte) Result {
 		if cfg.name != c.OnlyCfg {
 			continue
 		}
-		r := c12Render(&c, cfg.maxChars, c.OnlyMode)
+		r := c12Render(&c, cfg.maxChars, cfg.minChars, c.OnlyMode)
 		chunks, err := c12Run(cfg, r.doc)
 		res.Evals++
 		if err != nil {
